@@ -29,7 +29,7 @@ from harness.common import rat
 from harness.common import rats
 
 PID = "C13"
-EVENT_WAIT_S = 20.0  # any expected event later than this is reported as a hang
+EVENT_WAIT_S = 20.0  # an expected event later than this: the harness stops steering the run (no verdict by itself)
 
 TRUSTED_EXTRA = (
     "C13: queue.Queue / multiprocessing.Manager().Queue are FIFO exactly-once channels (assumed, exercised)",
@@ -175,13 +175,13 @@ class _Callback:
         self.log: list[tuple[int, Any]] = []
         self.events: queue.Queue = queue.Queue()
         self.sem = threading.Semaphore(0)
+        self.timed_out = False
 
     def __call__(self, index: int, output: Any) -> None:
         self.log.append((index, output))
         self.events.put(index)
-        if self.lazy and not self.sem.acquire(timeout=EVENT_WAIT_S + 10):
-            msg = "callback gate not released"
-            raise RuntimeError(msg)
+        if self.lazy and not self.sem.acquire(timeout=150.0):
+            self.timed_out = True  # recorded: the run is then discarded (never a verdict)
 
 
 def _worker_alive(ident: tuple[int, int], use_proc: bool) -> bool:
@@ -200,7 +200,48 @@ def fmt_cbs(log) -> str:
 
 
 class Hang(Exception):
-    pass
+    """The real run left the scripted schedule.  `timeout=True`: an expected event did not arrive within
+    EVENT_WAIT_S (wall-clock: never a verdict by itself); `timeout=False`: an observed event contradicts
+    the schedule the mirrored pool allows."""
+
+    def __init__(self, msg: str, timeout: bool = True) -> None:
+        super().__init__(msg)
+        self.timeout = timeout
+
+
+SKIP = "skip: an expected event timed out, the schedule could not be forced (no verdict)"
+
+
+def unusable(obs: dict[str, Any]) -> str | None:
+    """Reason why a gated run cannot give any verdict (time-outs of the machinery), or None."""
+    if obs.get("hang") is not None:
+        return f"the call did not return in time ({obs['hang']})"
+    if obs.get("gate_timeouts"):
+        return f"{obs['gate_timeouts']} gated task(s) were not released in time and aborted"
+    return None
+
+
+def usable_run(res: Result, stream: str, runner, case):
+    """Run a gated case; a run lost to time-outs is repeated once with doubled waits.  Returns the
+    observations, or None when both attempts timed out (counted; the check then exits 2, not 0/1)."""
+    global EVENT_WAIT_S  # noqa: PLW0603
+    obs = runner(case)
+    why = unusable(obs)
+    if why is None:
+        return obs
+    res.count(f"{stream}:timed-out-once")
+    old = EVENT_WAIT_S
+    EVENT_WAIT_S = 2 * old
+    try:
+        obs = runner(case)
+    finally:
+        EVENT_WAIT_S = old
+    why = unusable(obs)
+    if why is None:
+        return obs
+    res.count(f"{stream}:skipped-timeout")
+    res.extra.setdefault("unresolved_timeouts", []).append(f"{stream}: {why}")
+    return None
 
 
 def run_gated(case: dict[str, Any], launch, n: int, first_lines: list[str]) -> dict[str, Any]:
@@ -272,11 +313,11 @@ def run_gated(case: dict[str, Any], launch, n: int, first_lines: list[str]) -> d
             for act in case["script"]:
                 act = tuple(act)
                 if act not in mirror.actions():
-                    raise Hang(f"script action {act} impossible in the mirrored pool state")
+                    raise Hang(f"script action {act} impossible in the mirrored pool state", timeout=False)
                 if act[0] == "F":
                     k = act[1]
                     if k not in busy_wid:
-                        raise Hang(f"task {k} was never started although the pool should run it")
+                        raise Hang(f"task {k} was never started although the pool should run it", timeout=False)
                     eff = mirror.apply(act)
                     gate.release[k].set()
                     lines.append(f"F {busy_wid.pop(k)}")
@@ -307,6 +348,7 @@ def run_gated(case: dict[str, Any], launch, n: int, first_lines: list[str]) -> d
             # The real run left the scripted schedule (or an expected event never came): stop steering,
             # open every gate and let the call finish; it is a hang only if it still does not return.
             obs["deviation"] = str(h)
+            obs["timeout"] = h.timeout
             gate.open_all()
             for _ in range(4 * n + 4):
                 cb.sem.release()
@@ -325,6 +367,7 @@ def run_gated(case: dict[str, Any], launch, n: int, first_lines: list[str]) -> d
         except queue.Empty:
             break
     obs["started"] = started_all + extra_starts
+    obs["gate_timeouts"] = gate.timeouts + int(cb.timed_out)
     obs["cb_log"] = list(cb.log)
     obs["result"] = box.get("result", ("hang", None))
     obs["lines"] = lines
@@ -383,8 +426,8 @@ def pool_oracle(case: dict[str, Any], obs: dict[str, Any]) -> list[tuple[str, st
     exp = expected_outputs(case)
     reraise = case.get("reraise", True)
     stops = [k for k, o in enumerate(case["outcomes"]) if o == "S"] if reraise else []
-    if obs["hang"] is not None:
-        return [("hang", f"the parallel execution did not make progress: {obs['hang']}")]
+    if unusable(obs):
+        return []
     kind, val = obs["result"]
     exp_cbs = sorted((k, v) for k, v in enumerate(exp) if v is not None)
     log = obs["cb_log"]
@@ -438,6 +481,8 @@ def result_string(obs: dict[str, Any]) -> str:
 def compare_with_model(obs: dict[str, Any], answers: list[str]) -> str | None:
     """First difference between the observed run and the model run on the same transitions."""
     lines = obs["lines"]
+    if obs.get("deviation") and obs.get("timeout"):
+        return SKIP
     if obs.get("deviation"):
         return f"the real run left the schedule the model allows: {obs['deviation']} (observed starts {obs.get('started')})"
     for ln, a in zip(lines, answers):
@@ -611,7 +656,9 @@ def check_pool_cases(res: Result, cases: list[dict[str, Any]], rng: common.Rng, 
         if time.time() > deadline:
             res.notes.append(f"{stream}: stopped at the time limit after {len(runs)} of {len(cases)} cases")
             break
-        runs.append((case, run_pool_case(case)))
+        obs = usable_run(res, stream, run_pool_case, case)
+        if obs is not None:
+            runs.append((case, obs))
     all_lines: list[str] = []
     for _, obs in runs:
         all_lines.extend(obs["lines"])
@@ -644,6 +691,9 @@ def check_pool_cases(res: Result, cases: list[dict[str, Any]], rng: common.Rng, 
         diff = compare_with_model(obs, ans)
         if diff is None:
             res.traces_validated += 1
+            continue
+        if diff == SKIP:
+            res.count(f"{stream}:schedule-not-forced-timeout")
             continue
         res.disagreements += 1
         if bad:
@@ -805,8 +855,8 @@ def doe_oracle(case, par: dict[str, Any], seq: dict[str, Any]) -> list[tuple[str
     the non-failing samples in sample order with the exact function values; callbacks once per
     successful sample with the matching index."""
     bad: list[tuple[str, str]] = []
-    if par.get("hang"):
-        return [("hang", f"the parallel DOE did not make progress: {par['hang']}")]
+    if unusable(par):
+        return []
     if par["error"] is not None:
         return [("raises", f"the parallel DOE raised {par['error']}")]
     if seq["error"] is not None:
@@ -937,7 +987,9 @@ def check_doe_cases(res: Result, cases: list[dict[str, Any]], deadline: float) -
         if time.time() > deadline:
             res.notes.append(f"doe: stopped at the time limit after {len(runs)} of {len(cases)} cases")
             break
-        runs.append((case, run_doe_parallel(case), run_doe_sequential(case)))
+        par = usable_run(res, "doe", run_doe_parallel, case)
+        if par is not None:
+            runs.append((case, par, run_doe_sequential(case)))
     lines: list[str] = []
     spans = []
     for case, par, _ in runs:
@@ -974,6 +1026,8 @@ def check_doe_cases(res: Result, cases: list[dict[str, Any]], deadline: float) -
                 diff = f"DOE layer: model `{ans[-1]}`, real `{want}` (points named by first-occurrence index) for `{lines[hi - 1]}`"
         if diff is None:
             res.traces_validated += 1
+        elif diff == SKIP:
+            res.count("doe:schedule-not-forced-timeout")
         else:
             res.disagreements += 1
             if not bad:
@@ -1119,10 +1173,8 @@ def disc_oracle(case, obs) -> list[tuple[str, str]]:
     parallel chains/linearisation give the data and Jacobians of the sequential computation."""
     bad: list[tuple[str, str]] = []
     api = case["api"]
-    if obs["hang"] is not None:
-        return [("hang", f"the parallel execution did not make progress: {obs['hang']}; tasks whose body was entered: "
-                         f"{obs['started']}; once every gate was opened the call gave {disc_result_string(case, obs)} "
-                         f"(failing tasks: {case['fail']})")]
+    if unusable(obs):
+        return []
     kind, val = obs["result"]
     xs = disc_inputs(case)
     n = disc_n(case)
@@ -1271,7 +1323,9 @@ def check_disc_cases(res: Result, cases: list[dict[str, Any]], deadline: float) 
         if time.time() > deadline:
             res.notes.append(f"disc: stopped at the time limit after {len(runs)} of {len(cases)} cases")
             break
-        runs.append((case, run_disc_case(case)))
+        obs = usable_run(res, "disc", run_disc_case, case)
+        if obs is not None:
+            runs.append((case, obs))
     lines: list[str] = []
     for _, obs in runs:
         lines.extend(obs["lines"])
@@ -1303,6 +1357,8 @@ def check_disc_cases(res: Result, cases: list[dict[str, Any]], deadline: float) 
                 diff = f"model result `{ans[-1]}`, real `{want}`"
         if diff is None:
             res.traces_validated += 1
+        elif diff == SKIP:
+            res.count("disc:schedule-not-forced-timeout")
         else:
             res.disagreements += 1
             if not bad:
@@ -1409,8 +1465,8 @@ def fd_exact(case) -> list[list[Fraction]]:
 
 
 def fd_oracle(case, obs) -> list[tuple[str, str]]:
-    if obs["hang"] is not None:
-        return [("hang", f"the parallel approximation did not make progress: {obs['hang']}")]
+    if unusable(obs):
+        return []
     kind, val = obs["result"]
     skind, sval = obs["sequential"]
     if kind != "returned":
@@ -1459,7 +1515,9 @@ def check_fd_cases(res: Result, cases: list[dict[str, Any]], deadline: float) ->
         if time.time() > deadline:
             res.notes.append(f"fd: stopped at the time limit after {len(runs)} of {len(cases)} cases")
             break
-        runs.append((case, run_fd_case(case)))
+        obs = usable_run(res, "fd", run_fd_case, case)
+        if obs is not None:
+            runs.append((case, obs))
     lines: list[str] = []
     for _, obs in runs:
         lines.extend(obs["lines"])
@@ -1479,6 +1537,8 @@ def check_fd_cases(res: Result, cases: list[dict[str, Any]], deadline: float) ->
         diff = compare_with_model(dict(obs, hang=obs["hang"] or "skip-result"), ans)
         if diff is None:
             res.traces_validated += 1
+        elif diff == SKIP:
+            res.count("fd:schedule-not-forced-timeout")
         else:
             res.disagreements += 1
             if not bad:
@@ -1600,8 +1660,8 @@ def run_cache_case(case) -> dict[str, Any]:
 def cache_oracle(case, obs) -> list[tuple[str, str]]:
     """Property text: workers sharing a cache give the same data as the sequential computation;
     the shared cache ends up with exactly the successful inputs, each with its own outputs."""
-    if obs["hang"] is not None:
-        return [("hang", f"the parallel execution did not make progress: {obs['hang']}")]
+    if unusable(obs):
+        return []
     kind, val = obs["result"]
     if kind != "returned":
         return [("raises", f"the parallel execution raised {val!r}")]
@@ -1664,7 +1724,9 @@ def check_cache_cases(res: Result, cases: list[dict[str, Any]], deadline: float)
         if time.time() > deadline:
             res.notes.append(f"cache: stopped at the time limit after {len(runs)} of {len(cases)} cases")
             break
-        runs.append((case, run_cache_case(case)))
+        obs = usable_run(res, "cache", run_cache_case, case)
+        if obs is not None:
+            runs.append((case, obs))
     lines: list[str] = []
     spans = []
     for case, obs in runs:
@@ -1698,12 +1760,413 @@ def check_cache_cases(res: Result, cases: list[dict[str, Any]], deadline: float)
                     diff = f"cache layer: model entry order `{ans[-1]}`, real `{real}` for `{lines[hi - 1]}`"
         if diff is None:
             res.traces_validated += 1
+        elif diff == SKIP:
+            res.count("cache:schedule-not-forced-timeout")
         else:
             res.disagreements += 1
             if not bad:
                 res.violate("correspondence", "cache-model-vs-impl", f"model and implementation disagree: {diff} [{describe_cache(case)}]",
                             {"kind": "cache", "case": case, "protocol_lines": lines[lo:hi], "model_answers": ans, "difference": diff,
                              "correspondence": "Driver/C13.lean `cache` + pool transitions"})
+
+
+# ----------------------------------------------------------------------------- histories: successive execute() on ONE executor
+# case: {"kind": "hist", "api": "callable"|"exec"|"exec1"|"lin"|"lin1", "backend": "thread"|"process", "n_procs": int,
+#        "callables": [[a, b], ...] (api callable: one, or at least as many as the largest call),
+#        "discs": [[a, b, out], ...] (other apis: n disciplines, or one for exec1/lin1), "gate_on": "run"|"jac",
+#        "calls": [{"xs": [...], "outcomes": ["ok"|"F"|"S", ...], "script": [...], "lazy": bool}, ...]}
+# The executor object is created once (exceptions_to_re_raise=(StopError,)); call k runs `execute(xs_k)` on it under
+# its own forced schedule.  Input values are distinct over the whole history, so that a result of an earlier call
+# showing up in a later one is visible, and so that "the outcome of a task" is a function of its input value.
+
+
+def hist_multi(case) -> bool:
+    return len(case["callables"] if case["api"] == "callable" else case["discs"]) > 1
+
+
+def hist_value(case, i: int, x) -> Fraction:
+    """What task `i` on input `x` must produce (callable: a x + b; exec: the output a x + b; lin: the Jacobian a)."""
+    api = case["api"]
+    if api == "callable":
+        a, b = case["callables"][i if hist_multi(case) else 0]
+        return Fraction(a) * Fraction(x) + Fraction(b)
+    a, b, _ = case["discs"][i if hist_multi(case) else 0]
+    return Fraction(a) if api in ("lin", "lin1") else Fraction(a) * Fraction(x) + Fraction(b)
+
+
+def hist_init_line(case, k: int) -> str:
+    """`init` line of the Lean driver for call `k`; the failing/stopping input values of every call are listed
+    (the outcome of a task is a function of its input value), so that `call` lines can follow."""
+    api = case["api"]
+    multi = hist_multi(case)
+    specs_src = case["callables"] if api == "callable" else [d[:2] for d in case["discs"]]
+    specs = []
+    for j, (a, b) in enumerate(specs_src):
+        fails, stops = [], []
+        for call in case["calls"]:
+            for i, (x, o) in enumerate(zip(call["xs"], call["outcomes"])):
+                if multi and i != j:
+                    continue
+                if o == "F":
+                    fails.append(rat(Fraction(x)))
+                elif o == "S":
+                    stops.append(rat(Fraction(x)))
+        ab = f"0:{a}" if api in ("lin", "lin1") else f"{a}:{b}"
+        specs.append(f"{ab}:{'|'.join(fails) or '-'}:{'|'.join(stops) or '-'}")
+    xs = [Fraction(x) for x in case["calls"][k]["xs"]]
+    return f"init {case['n_procs']} {rats(xs)} {';'.join(specs)}"
+
+
+def run_hist_case(case) -> dict[str, Any]:
+    """Run the successive calls of the history on one executor object; one gated run per call."""
+    from gemseo.core.parallel_execution.callable_parallel_execution import CallableParallelExecution
+    from gemseo.core.parallel_execution.disc_parallel_execution import DiscParallelExecution
+    from gemseo.core.parallel_execution.disc_parallel_linearization import DiscParallelLinearization
+    from numpy import array
+
+    from harness import c13_disc
+    from harness.c13_disc import GatedAffine
+    from harness.c13_tasks import GatedCallable
+    from harness.c13_tasks import StopError
+
+    api = case["api"]
+    thr = case["backend"] != "process"
+    multi = hist_multi(case)
+    if api == "callable":
+        workers = [GatedCallable(None, a, b, {}, []) for a, b in case["callables"]]
+        ex = CallableParallelExecution(workers, n_processes=case["n_procs"], use_threading=thr,
+                                       exceptions_to_re_raise=(StopError,))
+    else:
+        workers = [GatedAffine(f"D{i}", a, b, out, None, key=i if multi else None, gate_on=case.get("gate_on", "run"))
+                   for i, (a, b, out) in enumerate(case["discs"])]
+        if api in ("lin", "lin1"):
+            for d in workers:
+                d.add_differentiated_inputs(["x"])
+                d.add_differentiated_outputs([d.out_name])
+            ex = DiscParallelLinearization(workers, n_processes=case["n_procs"], use_threading=thr,
+                                           exceptions_to_re_raise=(StopError,))
+        else:
+            ex = DiscParallelExecution(workers, n_processes=case["n_procs"], use_threading=thr,
+                                       exceptions_to_re_raise=(StopError,))
+    all_obs = []
+    in_model = True  # every call so far followed the schedule the model was given: the session can continue
+    for k, call in enumerate(case["calls"]):
+        n = len(call["xs"])
+        outcomes = call["outcomes"]
+        tok: list[int] = []
+
+        def launch(gate, cb, call=call, outcomes=outcomes, tok=tok):
+            if api == "callable":
+                key_of = {x: i for i, x in enumerate(call["xs"])}
+                for g in workers:
+                    g.gate, g.key_of, g.outcomes = gate, key_of, outcomes
+                return ex.execute(list(call["xs"]), exec_callback=cb)
+            tok.append(c13_disc.register(gate))
+            xs = [Fraction(t) for t in call["xs"]]
+            for i, d in enumerate(workers):
+                d.token = tok[0]
+                if multi:
+                    d.fail_keys = (i,) if i < len(outcomes) and outcomes[i] == "F" else ()
+                    d.stop_keys = (i,) if i < len(outcomes) and outcomes[i] == "S" else ()
+                else:
+                    d.key_of = {(float(x),): j for j, x in enumerate(xs)}
+                    d.fail_keys = tuple(j for j, o in enumerate(outcomes) if o == "F")
+                    d.stop_keys = tuple(j for j, o in enumerate(outcomes) if o == "S")
+            inputs = [{"x": array([float(x)])} for x in xs]
+            name = (lambda i: workers[i if multi else 0].out_name)
+            if api in ("exec", "exec1"):
+                return ex.execute(inputs, exec_callback=lambda i, data: cb(i, _scalar(data[name(i)])))
+            return ex.execute(inputs, exec_callback=lambda i, wd: cb(i, _scalar(wd.jacobian[name(i)]["x"])))
+
+        view = {"n_procs": case["n_procs"], "outcomes": outcomes, "backend": case["backend"], "lazy": bool(call.get("lazy")),
+                "script": call["script"], "reraise": True}
+        first = hist_init_line(case, k) if (k == 0 or not in_model) else f"call {rats([Fraction(x) for x in call['xs']])}"
+        try:
+            obs = run_gated(view, launch, n, [first])
+        finally:
+            for t in tok:
+                c13_disc.unregister(t)
+        obs["session_line"] = first.split(" ")[0]
+        all_obs.append(obs)
+        if unusable(obs):
+            break  # the executor may still be busy: nothing more can be learnt from this history
+        in_model = "deviation" not in obs
+    why = next((unusable(o) for o in all_obs if unusable(o)), None)
+    return {"calls": all_obs, "hang": why, "gate_timeouts": 0}
+
+
+def hist_values(case, val) -> list[Any] | None:
+    """The returned list as scalars (None for an empty slot); None if it has not the expected form."""
+    api = case["api"]
+    if not isinstance(val, list):
+        return None
+    multi = hist_multi(case)
+    out = []
+    for i, v in enumerate(val):
+        if v is None or api == "callable":
+            out.append(v)
+            continue
+        name = case["discs"][i if multi else 0][2]
+        try:
+            out.append(_scalar(v[name]["x"]) if api in ("lin", "lin1") else _scalar(v[name]))
+        except Exception:  # noqa: BLE001
+            return None
+    return out
+
+
+def hist_call_oracle(case, k: int, obs) -> list[tuple[str, str]]:
+    """Property text, for call `k` of the history: the outputs and the callback log of this call are positionally
+    those of ITS inputs (whatever the earlier calls did); a re-raised exception is one of this call's."""
+    from harness.c13_tasks import StopError
+
+    if unusable(obs):
+        return []
+    call = case["calls"][k]
+    n = len(call["xs"])
+    exp = [hist_value(case, i, x) if o == "ok" else None for i, (x, o) in enumerate(zip(call["xs"], call["outcomes"]))]
+    stops = [i for i, o in enumerate(call["outcomes"]) if o == "S"]
+    kind, val = obs["result"]
+    log = obs["cb_log"]
+    exp_cbs = sorted((i, float(v)) for i, v in enumerate(exp) if v is not None)
+    where = f"call {k + 1} of {len(case['calls'])} on the same executor"
+    bad: list[tuple[str, str]] = []
+
+    def same(g, w) -> bool:
+        return (g is None and w is None) or (g is not None and w is not None and common.is_finite_num(g) and common.F(g) == w)
+
+    def log_ok(entries, exact: bool) -> bool:
+        try:
+            got = sorted((int(i), float(v)) for i, v in entries)
+        except Exception:  # noqa: BLE001
+            return False
+        if exact:
+            return got == exp_cbs
+        return len(set(got)) == len(got) and all(e in exp_cbs for e in got)
+
+    if not stops:
+        if kind != "returned":
+            bad.append(("unexpected-exception", f"{where}: execute raised {val!r} although no task of this call raises a re-raised exception"))
+        else:
+            got = hist_values(case, val)
+            if not (got is not None and len(got) == n and all(same(g, w) for g, w in zip(got, exp))):
+                bad.append(("positional-results", f"{where}: inputs {call['xs']} returned {got if got is not None else val!r}, "
+                                                  f"the sequential map of these inputs gives {[None if w is None else str(w) for w in exp]}"))
+            if case["api"] in ("exec", "exec1") and got is not None and isinstance(val, list):
+                for i, d in enumerate(val):
+                    if d is not None and not same(_scalar(d.get("x")), Fraction(call["xs"][i])):
+                        bad.append(("positional-results", f"{where}: slot {i} holds the input {_scalar(d.get('x'))}, expected {call['xs'][i]}"))
+                        break
+        if not log_ok(log, True):
+            bad.append(("callbacks", f"{where}: callback calls {log!r} are not exactly once per successful task of this call with the matching index {exp_cbs!r}"))
+    else:
+        if not (kind == "raised" and isinstance(val, StopError) and val.args and val.args[0] in stops):
+            bad.append(("reraise", f"{where}: a task raised an exception to re-raise but execute gave {kind} {val!r}"))
+        if not log_ok(log, False):
+            bad.append(("callbacks", f"{where}: callback calls {log!r} are not at most once per successful task of this call with the matching index"))
+    cnt = Counter(obs["started"])
+    if any(cnt.get(i, 0) != 1 for i in range(n)) or any(i not in range(n) for i in cnt):
+        bad.append(("task-once", f"{where}: tasks were started {dict(cnt)!r}, expected each of the {n} tasks exactly once"))
+    return bad
+
+
+def hist_oracle(case, run) -> list[tuple[str, str]]:
+    bad: list[tuple[str, str]] = []
+    for k, obs in enumerate(run["calls"]):
+        for key, msg in hist_call_oracle(case, k, obs):
+            if key not in [b[0] for b in bad]:
+                bad.append((key, msg))
+    return bad
+
+
+def hist_result_string(case, obs) -> str:
+    from harness.c13_tasks import StopError
+
+    kind, val = obs["result"]
+    if kind == "returned":
+        vals = hist_values(case, val)
+        if vals is None:
+            return f"final=1 returned?{val!r}"[:200]
+        try:
+            return "final=1 returned " + (",".join(common.orat(v) for v in vals) or "[]")
+        except Exception:  # noqa: BLE001
+            return f"final=1 returned?{vals!r}"[:200]
+    if kind == "raised":
+        return "final=1 raised" if isinstance(val, StopError) else "final=1 raised:" + common.exc_class(val)
+    return "hang"
+
+
+def gen_hist_case(rng: common.Rng, backend: str, api: str | None = None) -> dict[str, Any]:
+    api = api or rng.pick(["callable", "callable", "exec", "lin", "exec1", "lin1"])
+    if api in ("exec1", "lin1"):
+        backend = "process"  # one discipline object run by several threads at once is not a supported use
+    n_calls = rng.pick([2, 2, 3])
+    n_procs = rng.pick([1, 2, 3])
+    fixed_n = rng.randint(2, 4) if api in ("exec", "lin") else None
+    sizes = [fixed_n or rng.randint(2, 4) for _ in range(n_calls)]
+    case: dict[str, Any] = {"kind": "hist", "api": api, "backend": backend, "n_procs": n_procs}
+    if api == "callable":
+        case["callables"] = gen_callables(rng, max(sizes), rng.chance(0.5))
+    else:
+        names = ["y0", "y1", "y2", "y3"]
+        m = fixed_n or 1
+        discs: list[list] = []
+        while len(discs) < m:
+            d = [rng.randint(1, 5), rng.randint(-3, 3), names[len(discs)]]
+            if d[:2] not in [e[:2] for e in discs]:
+                discs.append(d)
+        case["discs"] = discs
+        case["gate_on"] = "jac" if api in ("lin", "lin1") and rng.chance(0.5) else "run"
+    pool = list(range(-20, 21))
+    rng.shuffle(pool)
+    first_style = rng.pick(["stop0", "stop0", "stopmid", "stopmid", "stopany", "fail", "clean"])
+    calls = []
+    for k, n in enumerate(sizes):
+        if api == "callable":
+            xs: list[Any] = [pool.pop() for _ in range(n)]
+        else:
+            xs = [rat(Fraction(pool.pop(), 4)) for _ in range(n)]
+        style = first_style if k == 0 else rng.pick(["clean", "clean", "clean", "fail", "stopany"] if k == n_calls - 1 and k > 1
+                                                    else ["clean", "clean", "clean", "fail"])
+        outcomes = ["ok"] * n
+        if style == "stop0":
+            outcomes[0] = "S"
+        elif style == "stopmid":
+            outcomes[max(1, n // 2) if n > 1 else 0] = "S"
+        elif style == "stopany":
+            outcomes = [rng.pick(["ok", "ok", "F", "S"]) for _ in range(n)]
+        elif style == "fail":
+            outcomes = [rng.pick(["ok", "ok", "F"]) for _ in range(n)]
+        if style in ("stop0", "stopmid") and rng.chance(0.3):
+            j = rng.randint(0, n - 1)
+            if outcomes[j] == "ok":
+                outcomes[j] = "F"
+        has_s = "S" in outcomes
+        lazy = (not has_s) and rng.chance(0.3)
+        bias = rng.pick(["uniform", "reverse", "pile", "stop-first"] if has_s else ["uniform", "reverse", "pile"])
+        if bias == "stop-first":
+            script = stop_first_script(rng, n, n_procs, outcomes)
+        else:
+            script = random_script(rng, n, n_procs, outcomes, lazy, True, bias)
+        calls.append({"xs": xs, "outcomes": outcomes, "script": [list(a) for a in script], "lazy": lazy})
+    case["calls"] = calls
+    return case
+
+
+def stop_first_script(rng: common.Rng, n: int, n_procs: int, outcomes: list[str]):
+    """Release the tasks raising a re-raised exception as early as the pool allows (the other results stay unread)."""
+    m = Mirror(n, n_procs, outcomes, False, True)
+    acc = []
+    while not m.done():
+        fs = [a for a in m.actions() if a[0] == "F"]
+        stops = [a for a in fs if outcomes[a[1]] == "S"]
+        a = stops[0] if stops else rng.pick(fs)
+        m.apply(a)
+        acc.append(a)
+    return acc
+
+
+def describe_hist(case) -> str:
+    who = case["callables"] if case["api"] == "callable" else case["discs"]
+    calls = "; ".join(f"execute({c['xs']}) outcomes={''.join(o[0] for o in c['outcomes'])} completion={[a[1] for a in c['script'] if a[0] == 'F']}"
+                      f"{' lazy-callbacks' if c.get('lazy') else ''}" for c in case["calls"])
+    return f"ONE {case['api']} executor {case['backend']} n_processes={case['n_procs']} workers={who}: {calls}"
+
+
+def shrink_hist_case(case, key: str):
+    def fails(c) -> bool:
+        try:
+            return any(k == key for k, _ in hist_oracle(c, run_hist_case(c)))
+        except Exception:  # noqa: BLE001
+            return False
+
+    cur = case
+    budget = 14
+    improved = True
+    while improved and budget > 0:
+        improved = False
+        cands = []
+        nc = len(cur["calls"])
+        if nc > 1:
+            cands.append(dict(cur, calls=cur["calls"][:-1]))
+            for j in range(nc - 1):
+                cands.append(dict(cur, calls=cur["calls"][:j] + cur["calls"][j + 1:]))
+        if cur["n_procs"] > 1:
+            rng = common.make_rng(0, "shrink-hist")
+            calls = [dict(c, lazy=False, script=[list(a) for a in random_script(rng, len(c["xs"]), cur["n_procs"] - 1, c["outcomes"],
+                                                                                False, True, "uniform")]) for c in cur["calls"]]
+            cands.append(dict(cur, n_procs=cur["n_procs"] - 1, calls=calls))
+        for c in cands:
+            budget -= 1
+            if budget <= 0:
+                break
+            if fails(c):
+                cur = c
+                improved = True
+                break
+    return cur
+
+
+def check_hist_cases(res: Result, cases: list[dict[str, Any]], deadline: float) -> None:
+    runs = []
+    for case in cases:
+        if time.time() > deadline:
+            res.notes.append(f"hist: stopped at the time limit after {len(runs)} of {len(cases)} cases")
+            break
+        run = usable_run(res, "hist", run_hist_case, case)
+        if run is not None:
+            runs.append((case, run))
+    lines: list[str] = []
+    for _, run in runs:
+        for obs in run["calls"]:
+            lines.extend(obs["lines"])
+    answers = common.run_lean_driver(PID, lines)
+    pos = 0
+    for case, run in runs:
+        res.evaluations += 1
+        st = f"hist-{case['api']}"
+        res.count(f"{st}:{case['backend']}")
+        res.count(f"{st}:calls={len(case['calls'])}")
+        res.count(f"hist:n_processes={case['n_procs']}")
+        first = case["calls"][0]["outcomes"]
+        if "S" in first:
+            res.count(f"{st}:first-call-re-raises-at-{'task0' if first[0] == 'S' else 'later-task'}")
+            order = [a[1] for a in case["calls"][0]["script"] if a[0] == "F"]
+            if order and order[-1] != first.index("S"):
+                res.count(f"{st}:results-left-unread-by-first-call")
+        res.nontrivial(("hist", json.dumps(case, sort_keys=True)))
+        res.sample({"stream": st, "case": describe_hist(case),
+                    "impl_results": [hist_result_string(case, o) for o in run["calls"]]}, cap=24)
+        bad = hist_oracle(case, run)
+        for key, msg in bad:
+            small = shrink_hist_case(case, key)
+            if small is not case:
+                msg = dict(hist_oracle(small, run_hist_case(small))).get(key, msg)
+            res.violate("oracle", f"hist-{case['api']}-{key}", f"{msg} [{describe_hist(small)}]"[:1100], {"kind": "hist", "case": small})
+        diff = None
+        for k, obs in enumerate(run["calls"]):
+            ans = answers[pos: pos + len(obs["lines"])]
+            pos += len(obs["lines"])
+            if diff is not None:
+                continue
+            d = compare_with_model(dict(obs, hang="skip-result"), ans)
+            if d is None and "deviation" not in obs:
+                want = hist_result_string(case, obs)
+                if ans[-1] != want:
+                    d = f"model result `{ans[-1]}`, real `{want}`"
+            if d is not None and d != SKIP:
+                d = f"call {k + 1} (`{obs['lines'][0]}`): {d}"
+            diff = d
+        if diff is None:
+            res.traces_validated += 1
+        elif diff == SKIP:
+            res.count("hist:schedule-not-forced-timeout")
+        else:
+            res.disagreements += 1
+            if not bad:
+                res.violate("correspondence", f"hist-{case['api']}-model-vs-impl",
+                            f"session model (fresh queues per call) and implementation disagree: {diff} [{describe_hist(case)}]"[:1100],
+                            {"kind": "hist", "case": case, "protocol_lines": [o["lines"] for o in run["calls"]], "difference": diff,
+                             "correspondence": "Driver/C13.lean init/call + transitions S/T/F/C/X + result"})
 
 
 # ----------------------------------------------------------------------------- run
